@@ -22,6 +22,7 @@ import (
 )
 
 type c02Ctr struct {
+	Names  []string          `json:"names,omitempty"` // when set: the API's name list (first one counts)
 	Name   string            `json:"name"`
 	Image  string            `json:"image"`
 	State  string            `json:"state"`
@@ -45,9 +46,17 @@ type c02Input struct {
 // refLabels is the specification of a container's label set.
 func (c c02Ctr) refLabels(id string) map[string]string {
 	name := strings.TrimPrefix(c.Name, "/")
+	if c.Names != nil {
+		name = ""
+		if len(c.Names) > 0 {
+			name = strings.TrimPrefix(c.Names[0], "/")
+		}
+	}
 	m := map[string]string{
 		"container": name, "container_name": name, "container_id": id,
 		"container_image": c.Image, "container_state": c.State,
+		"container_image_id": "sha256:" + c.Image, "container_command": "run " + c.State,
+		"container_created": strconv.Itoa(1700000000 + len(c.Image)), "container_status": "Up " + c.State,
 	}
 	for k, v := range c.Labels {
 		m[refKeyToLabel(k)] = v
@@ -104,7 +113,8 @@ func c02Exec(in c02Input) (c02Obs, []fakedocker.LogCall) {
 		for k, v := range c.Labels {
 			labels[k] = v
 		}
-		ctrs = append(ctrs, fakedocker.Container{ID: id, Name: c.Name, Image: c.Image, State: c.State, Labels: labels, Log: fakedocker.Encode(recs)})
+		ctrs = append(ctrs, fakedocker.Container{ID: id, Name: c.Name, Names: c.Names, Image: c.Image, State: c.State, Labels: labels, Log: fakedocker.Encode(recs),
+			ImageID: "sha256:" + c.Image, Command: "run " + c.State, Created: int64(1700000000 + len(c.Image)), Status: "Up " + c.State})
 	}
 	fake := fakedocker.New(ctrs)
 	var obs c02Obs
@@ -354,6 +364,13 @@ func c02Matchers() []c02Matcher {
 			}
 		}
 	}
+	// the remaining built-in labels
+	for _, m := range [][2]string{{"container_id", "id0"}, {"container_id", "id[12]"}, {"container_image_id", "sha256:i1"}, {"container_command", "run running"}, {"container_command", "run.*"},
+		{"container_created", "1700000002"}, {"container_status", "Up exited"}, {"container_status", "Up.*"}} {
+		for _, op := range []string{"=", "!=", "=~", "!~"} {
+			out = append(out, c02Matcher{Label: m[0], Op: op, Value: m[1]})
+		}
+	}
 	return out
 }
 
@@ -367,6 +384,12 @@ func c02Run(r *vkit.Run) {
 		invs = append(invs, []c02Ctr{vars[i], vars[i+1], vars[i+2]})
 	}
 	invs = append(invs, []c02Ctr{vars[0]}, []c02Ctr{vars[0], vars[12]}, []c02Ctr{}, []c02Ctr{vars[5], vars[40], vars[70]})
+	// name lists: several names (the first one counts), no name at all, a name without leading slash
+	invs = append(invs, []c02Ctr{
+		{Names: []string{"/b", "/a"}, Image: "i1", State: "running", Labels: map[string]string{"k": "v"}},
+		{Names: []string{}, Image: "i2", State: "exited", Labels: map[string]string{}},
+		{Names: []string{"ab"}, Image: "i1", State: "running", Labels: map[string]string{"k": ""}},
+	})
 	times := []int64{0, 1 * sec, 1500000000, 2999999999}
 	idx := 0
 	one := func(in c02Input) {
